@@ -576,12 +576,11 @@ structure Flags where
   version : Bool := false    -- F3 repaired?
 
 def isEmptyForm (cs : List Char) : Bool :=
-  let str := String.ofList cs
-  str == "" || str == "[]" ||
-    (str.startsWith "!" &&
+  cs == [] || cs == ['[', ']'] ||
+    (cs.head? == some '!' &&
       (match (cs.drop 1).idxOf? '!' with
-       | some i => String.ofList (cs.drop (i + 2)) == "[]"
-       | none => str == "[]"))
+       | some i => cs.drop (i + 2) == ['[', ']']
+       | none => false))
 
 /-- the part of `process` that runs the tokenizer, the header migration and the main loops -/
 def parseBody (tbl : List ElemDef) (fl : Flags) (cs : List Char) : PyM PS :=
